@@ -743,7 +743,7 @@ def gen_time_histories(ctx):
     for L in range(1, full + 1):
         for combo in itertools.product(alpha, repeat=L):
             hs.append(news + list(combo))
-    for _ in range(0 if light else 60 if ctx.quick() else 1500):
+    for _ in range(0 if light else 40 if ctx.quick() else 1500):
         hs.append(news + [ctx.rng.choice(alpha) for _ in range(ctx.rng.randrange(5, 30))])
     return hs
 
@@ -921,7 +921,7 @@ def gen_pv_histories(ctx):
             for combo in itertools.product(alpha, repeat=L):
                 hs.append((name, prelude + list(combo)))
         if not light:
-            for _ in range(100 if ctx.quick() else 3000):
+            for _ in range(60 if ctx.quick() else 3000):
                 hs.append((name, prelude + [ctx.rng.choice(alpha) for _ in range(ctx.rng.randrange(3, 9))]))
             for _ in range(10 if ctx.quick() else 150):
                 hs.append((name + "-long", prelude + [ctx.rng.choice(alpha) for _ in range(ctx.rng.randrange(9, 41))]))
@@ -1022,6 +1022,7 @@ def _run(ctx, srv):
         else:
             ctx.violation(rep, what=f"midgard's observations differ from the model and from every quirk machine (scenario {name})")
 
+    ctx.log("position machine compared")
     # ---------------------------------------------------------------- PosVel / PositionDelta objects
     phs = gen_pv_histories(ctx)
     pres = srv.map("hist_pv", [ops for _, ops in phs])
@@ -1089,6 +1090,7 @@ def _run(ctx, srv):
         else:
             ctx.violation(rep, what=f"PosVel/PositionDelta observations differ from the uncached reference of the current contents (scenario {name})")
 
+    ctx.log(f"PosVel machine compared ({len(pgood)} histories)")
     # ---------------------------------------------------------------- time scales
     ths = gen_time_histories(ctx)
     tres = srv.map("hist_time", ths)
